@@ -8,14 +8,23 @@ use serde::{Deserialize, Serialize};
 /// Exact scalar payloads. Floats are kept as bit patterns (all NaNs collapsed).
 #[derive(Clone, Debug, PartialEq, Eq, Hash, PartialOrd, Ord, Serialize, Deserialize)]
 pub enum Sc {
-  U(u128),
-  I(i128),
+  U(#[serde(with = "as_str")] u128),
+  I(#[serde(with = "as_str")] i128),
   F32(u32),
   F64(u64),
   R(i64, i64),
   C(u64, u64),
   B(bool),
   S(String),
+}
+
+pub mod as_str {
+  use serde::{Deserialize, Deserializer, Serializer};
+  pub fn serialize<T: std::fmt::Display, S: Serializer>(v: &T, s: S) -> Result<S::Ok, S::Error> { s.serialize_str(&v.to_string()) }
+  pub fn deserialize<'de, T: std::str::FromStr, D: Deserializer<'de>>(d: D) -> Result<T, D::Error> {
+    let s = String::deserialize(d)?;
+    s.parse::<T>().map_err(|_| serde::de::Error::custom("bad integer"))
+  }
 }
 
 pub fn f32_bits(x: f32) -> u32 { if x.is_nan() { f32::NAN.to_bits() } else { x.to_bits() } }
